@@ -113,6 +113,17 @@ func (c Case) Script() string {
 			return s + "reterr:0"
 		}
 		return s + "ret:0"
+	case "writeret":
+		// breaks the handler contract: writes a 200 response, then returns an error status
+		s := hdr
+		if b.X {
+			s += "status:200;"
+		}
+		s += "text:" + handlerBody + ";"
+		if b.E {
+			return s + "reterr:" + strconv.Itoa(b.S)
+		}
+		return s + "ret:" + strconv.Itoa(b.S)
 	case "panicbefore":
 		return c.panicOp()
 	case "panicafter":
@@ -279,7 +290,7 @@ func ViolationsC12(c Case, o Obs) []string {
 		v = append(v, "one-response")
 	}
 	// OneCommitP
-	if b.K != "panicafter" && len(o.Commits) > 1 {
+	if b.K != "panicafter" && b.K != "writeret" && len(o.Commits) > 1 {
 		v = append(v, "one-commit")
 	}
 	// ErrorGetsBodyP
